@@ -49,7 +49,7 @@ def spawn(job, tmp, tag, hashseed):
     with open(jf, "w") as f:
         json.dump(job, f)
     try:
-        p = subprocess.run([sys.executable, "-c", CHILD_CODE, jf, of], env=C.py_env(hashseed=hashseed), timeout=CHILD_TIMEOUT,
+        p = subprocess.run([sys.executable, "-c", CHILD_CODE, jf, of], env=C.py_env(hashseed=hashseed), timeout=CHILD_TIMEOUT, preexec_fn=C.child_process_guard,
                            stdout=subprocess.PIPE, stderr=subprocess.STDOUT, text=True, cwd=tmp)
     except subprocess.TimeoutExpired:
         return {"error": "child timed out after %ds (non-termination?)" % CHILD_TIMEOUT}
